@@ -759,8 +759,11 @@ Lemma refund_expired_chain_inv p s chain s' :
   InvP p s -> refund_expired_chain s chain = Ok s' -> InvP p s'.
 Proof.
   intros HI H. unfold refund_expired_chain in H. revert H. apply (fold_res_inv (InvP p)).
-  - intros st e st' [Hst Hp] Hf. destruct (cancel_send st chain (s_id e) (s_sender e)) as [st2|?|?] eqn:Hc; try discriminate.
+  - intros st e st' [Hst Hp] Hf.
+    destruct (negb (fits256 _)); [inversion Hf; subst st'; split; auto|].
+    destruct (cancel_send st chain (s_id e) (s_sender e)) as [st2|?|?] eqn:Hc.
     + inversion Hf; subst st'. split; [eapply cancel_send_inv; eauto | rewrite (cancel_send_params _ _ _ _ _ Hc); exact Hp].
+    + inversion Hf; subst st'. split; auto.
     + inversion Hf; subst st'. split; auto.
   - intros s0 E. inversion E; subst s0. exact HI.
 Qed.
